@@ -352,20 +352,27 @@ func TestC16_SegInputStream(t *testing.T) {
 		nbig := rapid.IntRange(1, 4).Draw(rt, "nbig")
 		for i := 0; i < nbig; i++ {
 			sz := rapid.SampledFrom([]int{65536, 65537, 70000, 100000, 131072}).Draw(rt, "bigread")
-			if pos+sz >= len(b)-10 {
+			if pos+sz >= len(b)-400 {
 				break
 			}
 			reads = append(reads, b[pos:pos+sz])
 			bigs = append(bigs, sz)
 			pos += sz
 		}
-		for pos < len(b) {
+		// parked bytes are only looked at when a further socket read arrives, each
+		// draining one packet's worth: the last 48 bytes come one per read so that
+		// everything parked (at most the sum of the large reads) is drained before
+		// the input ends — bytes still parked at EOF are the live-burst's subject
+		for pos < len(b)-48 {
 			sz := rapid.IntRange(1, 4096).Draw(rt, "smallread")
-			if pos+sz > len(b) {
-				sz = len(b) - pos
+			if pos+sz > len(b)-48 {
+				sz = len(b) - 48 - pos
 			}
 			reads = append(reads, b[pos:pos+sz])
 			pos += sz
+		}
+		for ; pos < len(b); pos++ {
+			reads = append(reads, b[pos:pos+1])
 		}
 		c.Case()
 		got, parked := serveLoop(reads)
